@@ -8,8 +8,12 @@ BASE = "cd /repo && /venv/bin/python -m pytest -ra -q -p no:cacheprovider --time
 ALL = ["C%02d" % i for i in range(1, 21)]
 
 # each claimed property has harness/props/cxx.manifest.json: technique, text, note, design_ref
+# only properties listed in harness/claimed.txt (verified green by the integrator) are claimed
+_VERIFIED = set(open(os.path.join(VERIF, "harness", "claimed.txt")).read().split())
 CLAIMED = {}
 for _p in ALL:
+    if _p not in _VERIFIED:
+        continue
     _f = os.path.join(VERIF, "harness", "props", _p.lower() + ".manifest.json")
     if os.path.exists(_f) and os.path.exists(os.path.join(VERIF, "harness", "props", _p.lower() + ".py")):
         _m = json.load(open(_f))
